@@ -248,6 +248,39 @@ def run_unrepresentable(ctx):
         except Exception:  # noqa: BLE001
             pass
         ctx.evaluations += 1
+    # powers whose exponent leaves 32 bits must raise as well, never wrap (seeded change C20-12: a fast path that scales
+    # the exponent row of a single-term base)
+    for a, n in ((65536, 65536), (46341, 92682), (2 ** 20, 2 ** 12)):
+        case = {"kind": "overflow", "a": a, "b": n, "op": "power"}
+        ctx.evaluations += 1
+        try:
+            with time_limit(60):
+                r = mono([a], 1) ** n
+            got = {int(e[0]): int(v) for e, v in zip(r.exponents.tolist(), r.coefficients)}
+            if got != {a * n: 1}:
+                ctx.fail(case, f"(q0**{a})**{n} stored {got} instead of raising (the exponent {a * n} is not representable)", ["overflow", "wrong"])
+        except CaseTimeout:
+            ctx.notes.append(f"(q0**{a})**{n} did not finish in 60 s")
+        except Exception:  # noqa: BLE001
+            pass
+    # products written into a caller's target (zero-filled, holding the product's term among others, in any order):
+    # the coefficient lands on the product's own monomial (seeded change C20-11: keys taken by position)
+    for ea, eb, extra in ((40, 50, [0]), (70, 3, [0, 1]), (1, 2, [7, 0]), (100, 200, [300, 5, 0])):
+        for dt in ("int64", "int32"):
+            case = {"kind": "overflow", "a": ea, "b": eb, "op": "multiply-out", "dtype": dt}
+            ctx.evaluations += 1
+            try:
+                keys = sorted(set(extra + [ea + eb]), reverse=True)
+                target = numpoly.polynomial_from_attributes([[k] for k in keys], [numpy.zeros((), dtype=dt) for _ in keys], ("q0",),
+                                                            dtype=dt, retain_coefficients=True, retain_names=True)
+                x = numpoly.polynomial_from_attributes([[ea]], [numpy.array(2, dtype=dt)], ("q0",), dtype=dt)
+                y = numpoly.polynomial_from_attributes([[eb]], [numpy.array(3, dtype=dt)], ("q0",), dtype=dt)
+                r = numpoly.multiply(x, y, out=target)
+                got = {int(e[0]): int(v) for e, v in zip(target.exponents.tolist(), target.coefficients) if int(v)}
+                if got != {ea + eb: 6}:
+                    ctx.fail(case, f"multiply(2*q0**{ea}, 3*q0**{eb}, out=<terms {keys}>) [{dt}] stored {got}, the product is {{{ea + eb}: 6}}", ["overflow", "out-target"])
+            except Exception as err:  # noqa: BLE001
+                ctx.fail(case, f"multiply(..., out=) raised {type(err).__name__}: {str(err)[:100]}", ["overflow", "out-target", "raises"])
 
 
 def run_narrow(ctx):
